@@ -87,8 +87,8 @@ Qed.
 Lemma stable_touch b P w ws k u : stable b P w (touch_metadata w ws k u).
 Proof. unfold touch_metadata. destruct (kidx_storable k); [apply stable_get_entity | apply stable_refl]. Qed.
 
-Lemma stable_save_flat b P w ws k u : stable b P w (save_flat w ws k u).
-Proof. unfold save_flat. destruct (_ && _); [apply stable_E; simpl; try lia; reflexivity | apply stable_refl]. Qed.
+Lemma stable_save_node b P w ws par k u : stable b P w (save_node w ws par k u).
+Proof. destruct (save_node_facts w ws par k u) as [A [B [C [D _]]]]. apply stable_E; [lia | lia | exact D | exact C]. Qed.
 
 Lemma stable_copy_uid b P w ws u : stable b P w (fst (copy_uid w ws u)).
 Proof.
@@ -116,12 +116,12 @@ Proof.
   - set (w3 := upd (set_R w2 ws k d) (n w) (fun r0 => with_reg r0 props)).
     assert (S3 : stable b P w2 w3).
     { apply (stable_trans b P w2 (set_R w2 ws k d) w3); [apply stable_E; simpl; try lia; reflexivity | apply stable_upd_new; exact Hb]. }
-    set (w4 := touch_metadata (save_flat w3 ws k u) ws k u).
-    assert (S4 : stable b P w3 w4) by (eapply stable_trans; [apply stable_save_flat | apply stable_touch]).
+    set (w4 := touch_metadata (save_node w3 ws par k u) ws k u).
+    assert (S4 : stable b P w3 w4) by (eapply stable_trans; [apply stable_save_node | apply stable_touch]).
     assert (E4 : E w4 (n w) = with_reg (E w2 (n w)) props).
-    { unfold w4. rewrite (proj1 (En_touch _ ws k u)), (proj1 (En_save_flat _ ws k u)). unfold w3. simpl. rewrite Nat.eqb_refl. reflexivity. }
+    { unfold w4. rewrite (proj1 (En_touch _ ws k u)), (proj1 (En_save_node _ ws par k u)). unfold w3. simpl. rewrite Nat.eqb_refl. reflexivity. }
     assert (N4 : n w4 = S (n w)).
-    { unfold w4. rewrite (proj2 (En_touch _ ws k u)), (proj2 (En_save_flat _ ws k u)). simpl. congruence. }
+    { unfold w4. rewrite (proj2 (En_touch _ ws k u)), (proj2 (En_save_node _ ws par k u)). simpl. congruence. }
     assert (Sall : stable b P w w4) by (eapply stable_trans; [exact S1|]; eapply stable_trans; [exact S2|]; eapply stable_trans; eassumption).
     assert (Fin : forall wf, (wf = w4 \/ wf = kill w4 [n w]) ->
       stable b P w wf /\ n w = n w /\ n wf = S (n w) /\ euid (E wf (n w)) = u /\ ekind (E wf (n w)) = k /\ ews (E wf (n w)) = ws
